@@ -42,6 +42,8 @@ CONSTANTS
   MInitUseCache,   \* TRUE: CompositeParameter initialises its _use_cache slot (repaired); FALSE: pinned
   MClearByOperand, \* TRUE: _clear_cache tests the operand itself (repaired); FALSE: tests right._cache (pinned)
   MPickleSlots,    \* TRUE: the slot part is pickled too (repaired); FALSE: only __dict__ (pinned)
+  MEqFlat,         \* TRUE (mutant): __eq__ compares the flattened traversals (operators in pre-order, leaves left to right)
+  MReuseEqual,     \* TRUE (mutant): when the right operand compares equal to the left one its value is not computed but reused
   MCacheKeyTime    \* TRUE: the operand cache is keyed by the time argument as well (pinned and repaired)
 
 VARIABLES
@@ -101,6 +103,7 @@ T0 == {Leaf(k) : k \in LeafKinds}
 T1 == T0 \cup {n \in {Node(o, a, b) : o \in Ops, a \in T0, b \in T0} : ~(IsNum(n.l) /\ IsNum(n.r))}
 
 LeafCode(k) == CASE k = "P2" -> 1 [] k = "P3" -> 2 [] k = "PT" -> 3 [] k = "I" -> 4 [] k = "F" -> 5
+                 [] k = "P2b" -> 6 [] k = "P3b" -> 7 [] k = "PTb" -> 8
 OpCode(o) == CASE o = "add" -> 1 [] o = "sub" -> 2 [] o = "mul" -> 3 [] o = "div" -> 4 [] o = "pow" -> 5
 RECURSIVE H(_)
 H(t) == IF IsLeaf(t) THEN LeafCode(t.k) ELSE (H(t.l) * 31 + H(t.r) * 17 + OpCode(t.op) * 7 + 3) % 10007
@@ -109,6 +112,36 @@ Sampled(t) == \/ Level(t) <= 1
               \/ Level(t) > 2 /\ (H(t) + SampleSeed) % DeepMod = 0
 \* which trees with 2 or more operator levels are grown further: all of a sample, 1 in 97 of the complete set
 GrowsOn(t) == Level(t) < 2 \/ SampleMod > 1 \/ (H(t) + SampleSeed) % 97 = 0
+
+\* --- two further input dimensions -------------------------------------------------------------------------
+\* (1) twins under equal operands: where the two operands of a node are the same expression, the right one is replaced
+\*     by its twin (every parameter leaf by the twin leaf): operands that compare equal but are other computations
+TwinKind(k) == CASE k = "P2" -> "P2b" [] k = "P3" -> "P3b" [] k = "PT" -> "PTb" [] k = "P2b" -> "P2" [] k = "P3b" -> "P3"
+                 [] k = "PTb" -> "PT" [] OTHER -> k
+BaseKind(k) == IF k \in {"P2b", "P3b", "PTb"} THEN TwinKind(k) ELSE k
+HasTwin(tr) == Kinds(tr) \cap {"P2b", "P3b", "PTb"} # {}
+RECURSIVE TwinAll(_)
+TwinAll(tr) == IF IsLeaf(tr) THEN Leaf(TwinKind(tr.k)) ELSE Node(tr.op, TwinAll(tr.l), TwinAll(tr.r))
+RECURSIVE Twinned(_)
+Twinned(tr) == IF IsLeaf(tr) THEN tr
+               ELSE IF tr.l = tr.r /\ IsParam(tr.l) THEN Node(tr.op, Twinned(tr.l), TwinAll(Twinned(tr.r)))
+               ELSE Node(tr.op, Twinned(tr.l), Twinned(tr.r))
+RECURSIVE HasEqualOperands(_)
+HasEqualOperands(tr) == ~IsLeaf(tr) /\ ((tr.l = tr.r /\ IsParam(tr.l)) \/ HasEqualOperands(tr.l) \/ HasEqualOperands(tr.r))
+\* (2) other shapes of the same flat reading: all trees with the same operators in pre-order and the same leaves from
+\*     left to right (different bracketing / operator placement)
+RECURSIVE PreOps(_)
+PreOps(tr) == IF IsLeaf(tr) THEN <<>> ELSE <<tr.op>> \o PreOps(tr.l) \o PreOps(tr.r)
+RECURSIVE Fringe(_)
+Fringe(tr) == IF IsLeaf(tr) THEN <<tr>> ELSE Fringe(tr.l) \o Fringe(tr.r)
+RECURSIVE Shapes(_, _)
+Shapes(ops, lv) == IF Len(ops) = 0 THEN {lv[1]}
+                   ELSE UNION {{Node(ops[1], a, b) : a \in Shapes(SubSeq(ops, 2, k + 1), SubSeq(lv, 1, k + 1)),
+                                                       b \in Shapes(SubSeq(ops, k + 2, Len(ops)), SubSeq(lv, k + 2, Len(lv)))} :
+                               k \in 0..(Len(ops) - 1)}
+RECURSIVE ValidTree(_)
+ValidTree(tr) == IsLeaf(tr) \/ (~(IsNum(tr.l) /\ IsNum(tr.r)) /\ ValidTree(tr.l) /\ ValidTree(tr.r))
+SameFlat(tr) == {t \in Shapes(PreOps(tr), Fringe(tr)) : ValidTree(t)} \ {tr}
 
 -----------------------------------------------------------------------------
 (* PROPERTY: pointwise semantics                                           *)
@@ -125,18 +158,24 @@ LeafVal(k, p, t) ==
     [] k = "PT" -> Pts[p].x + 2 * Pts[p].z - Q + t
     [] k = "I" -> 2 * Q
     [] k = "F" -> Q \div 2
+    \* twins: another leaf of the same kind that the library's == cannot tell from the first (same function code and
+    \* keyword names; the difference lives in a closure cell / in an array keyword below the comparison tolerance)
+    \* but that computes other values:  P2b = P2 - 4,  P3b = P3 + 2,  PTb = PT - 3
+    [] k = "P2b" -> Pts[p].x + 2 * Pts[p].y - 2 * Q - 4 * Q
+    [] k = "P3b" -> Pts[p].x - Pts[p].y + Pts[p].z + Q + 2 * Q
+    [] k = "PTb" -> Pts[p].x + 2 * Pts[p].z - Q + t - 3 * Q
 
 RECURSIVE Eval(_, _, _)
 Eval(tr, p, t) == IF IsLeaf(tr) THEN LeafVal(tr.k, p, t)
                   ELSE Apply(tr.op, Eval(tr.l, p, t), Eval(tr.r, p, t))
 
-TimeDep(tr) == "PT" \in Kinds(tr)
+TimeDep(tr) == Kinds(tr) \cap {"PT", "PTb"} # {}
 
 \* argument forms: (x, y) | (x, y, z) | (x, y, t=) | (x, y, z, t=)
 Forms == {"F2", "F3", "F2T", "F3T"}
 FormDim(f) == IF f \in {"F2", "F2T"} THEN 2 ELSE 3
 FormHasT(f) == f \in {"F2T", "F3T"}
-LeafDim(k) == IF k = "P2" THEN 2 ELSE 3
+LeafDim(k) == IF k \in {"P2", "P2b"} THEN 2 ELSE 3
 DimsFit(tr, f) == \A k \in Kinds(tr) \ {"I", "F"} : LeafDim(k) = FormDim(f)
 \* "val": must return the pointwise value; "fail": must raise, not return anything;
 \* "either": a time given to an expression without time dependence may be refused or ignored
@@ -154,7 +193,7 @@ EvalAt(tr, a, t) == [n \in 1..Len(ArgPts(a)) |-> Eval(tr, ArgPts(a)[n], t)]
 (* MECHANISM                                                               *)
 \* time_dependent as the class computes it: from the flags of the two operands
 RECURSIVE TdMech(_)
-TdMech(tr) == IF IsLeaf(tr) THEN tr.k = "PT" ELSE TdMech(tr.l) \/ TdMech(tr.r)
+TdMech(tr) == IF IsLeaf(tr) THEN tr.k \in {"PT", "PTb"} ELSE TdMech(tr.l) \/ TdMech(tr.r)
 B2S(b) == IF b THEN "T" ELSE "F"
 
 \* __init__ reads operand._use_cache of a time-dependent operand; a composite operand has that slot only
@@ -170,7 +209,7 @@ ParamPaths(tr, p) == IF IsLeaf(tr) THEN (IF IsNum(tr) THEN {} ELSE {p})
                      ELSE {p} \cup ParamPaths(tr.l, p \o "l") \cup ParamPaths(tr.r, p \o "r")
 \* operands that cache: time-dependent leaf parameters below a composite
 RECURSIVE CachingPaths(_, _)
-CachingPaths(tr, p) == IF IsLeaf(tr) THEN (IF tr.k = "PT" /\ p # "o" THEN {p} ELSE {})
+CachingPaths(tr, p) == IF IsLeaf(tr) THEN (IF tr.k \in {"PT", "PTb"} /\ p # "o" THEN {p} ELSE {})
                        ELSE CachingPaths(tr.l, p \o "l") \cup CachingPaths(tr.r, p \o "r")
 
 \* _clear_cache: result [ok, c = paths whose cache was emptied]
@@ -191,13 +230,25 @@ SlotsPickled(tr) == MPickleSlots \/ IsLeaf(tr)   \* a plain Parameter is all slo
 \* structural equality as the classes compute it (recursive __eq__)
 RECURSIVE EqMech(_, _)
 EqMech(a, b) == IF IsLeaf(a) \/ IsLeaf(b) THEN IsLeaf(a) /\ IsLeaf(b) /\ a.k = b.k
+                ELSE IF MEqFlat THEN PreOps(a) = PreOps(b) /\ Fringe(a) = Fringe(b)
                 ELSE a.op = b.op /\ EqMech(a.l, b.l) /\ EqMech(a.r, b.r)
+\* what the library's == answers for two operands: it cannot tell a leaf from its twin
+RECURSIVE LibEq(_, _)
+LibEq(a, b) == IF IsLeaf(a) \/ IsLeaf(b) THEN IsLeaf(a) /\ IsLeaf(b) /\ BaseKind(a.k) = BaseKind(b.k)
+               ELSE a.op = b.op /\ LibEq(a.l, b.l) /\ LibEq(a.r, b.r)
+\* evaluation as the class does it: both operands are evaluated (a mutant reuses the left value for an "equal" right one)
+RECURSIVE EvalMech(_, _, _)
+EvalMech(tr, p, t) == IF IsLeaf(tr) THEN LeafVal(tr.k, p, t)
+                      ELSE LET lv == EvalMech(tr.l, p, t) IN
+                           IF MReuseEqual /\ IsParam(tr.l) /\ IsParam(tr.r) /\ LibEq(tr.l, tr.r) THEN Apply(tr.op, lv, lv)
+                           ELSE Apply(tr.op, lv, EvalMech(tr.r, p, t))
+EvalMechAt(tr, a, t) == [n \in 1..Len(ArgPts(a)) |-> EvalMech(tr, ArgPts(a)[n], t)]
 
 \* time seen by a caching operand: with a cache keyed without the time the first call at an argument wins
 TEff(o, f, a, t) == IF MCacheKeyTime THEN t
                     ELSE IF \E e \in o.first : e[1] = f /\ e[2] = a
                          THEN (CHOOSE e \in o.first : e[1] = f /\ e[2] = a)[3] ELSE t
-CallVals(tr, o, f, t) == [a \in Args |-> IF IsLeaf(tr) THEN EvalAt(tr, a, t) ELSE EvalAt(tr, a, TEff(o, f, a, t))]
+CallVals(tr, o, f, t) == [a \in Args |-> IF IsLeaf(tr) THEN EvalMechAt(tr, a, t) ELSE EvalMechAt(tr, a, TEff(o, f, a, t))]
 
 None == [what |-> "none"]
 Obj0 == [alive |-> FALSE, td |-> "unset", filled |-> {}, first |-> {}, eq |-> "unset"]
@@ -216,7 +267,12 @@ Grow == /\ pc = "grow" /\ Level(tree) < MaxLevel /\ GrowsOn(tree)
                /\ tree' = nt
         /\ UNCHANGED <<pc, orig, copy, pickled, last, ncalls>>
 
-Build == /\ pc = "grow" /\ IsParam(tree)
+\* the twinned form of an expression with equal operands somewhere (explored next to the expression itself)
+Twin == /\ pc = "grow" /\ HasEqualOperands(tree) /\ ~HasTwin(tree)
+        /\ tree' = Twinned(tree) /\ pc' = "twin"
+        /\ UNCHANGED <<orig, copy, pickled, last, ncalls>>
+
+Build == /\ pc \in {"grow", "twin"} /\ IsParam(tree)
          /\ IF BuildOK(tree)
             THEN /\ pc' = "built"
                  /\ orig' = [Obj0 EXCEPT !.alive = TRUE, !.td = B2S(TdMech(tree))]
@@ -241,8 +297,11 @@ Eq(other) ==
   /\ pc = "built"
   /\ last' = [what |-> "eq", other |-> other, res |-> EqMech(tree, other)]
   /\ UNCHANGED <<tree, pc, orig, copy, pickled, ncalls>>
+\* (an expression with twins is only compared with expressions that have the same leaf in every position: what == should
+\* say about a leaf and its twin is not part of the property)
 Variants(tr) == {tr} \cup (IF IsLeaf(tr) THEN T0 \ {Leaf("I"), Leaf("F")}
-                           ELSE {Node(tr.op, tr.r, tr.l), tr.l, tr.r} \cup {Node(o, tr.l, tr.r) : o \in Ops})
+                           ELSE IF HasTwin(tr) THEN {Node(o, tr.l, tr.r) : o \in Ops}
+                           ELSE {Node(tr.op, tr.r, tr.l), tr.l, tr.r} \cup {Node(o, tr.l, tr.r) : o \in Ops} \cup SameFlat(tr))
 
 Clear ==
   /\ pc = "built"
@@ -285,7 +344,7 @@ ClearCopy ==
 
 \* TDGLSolver.__init__ evaluates the parameter at (x, y, z[, t=0]) and clears its cache; solve() clears it
 \* again and stores the parameter (pickled) in the output file
-AllLeaves3D(tr) == "P2" \notin Kinds(tr)
+AllLeaves3D(tr) == Kinds(tr) \cap {"P2", "P2b"} = {}
 Solve == /\ pc \in {"built", "cleared", "copied"}
          /\ last' = [what |-> "solve", ok |-> AllLeaves3D(tree) /\ ClearRes(tree, "o").ok, td |-> orig.td]
          /\ pc' = "solved"
@@ -303,13 +362,13 @@ MEq == last.what = "none" /\ \E other \in Variants(tree) : Eq(other)
 MPickle == pc = "cleared" /\ Pickle
 MClearCopy == last.what # "clear" /\ ClearCopy
 MSolve == pc = "copied" /\ Solve
-Next == Grow \/ Build \/ MCall \/ MEq \/ Clear \/ MPickle \/ Unpickle \/ MCallCopy \/ MClearCopy \/ MSolve
+Next == Grow \/ Twin \/ Build \/ MCall \/ MEq \/ Clear \/ MPickle \/ Unpickle \/ MCallCopy \/ MClearCopy \/ MSolve
 
 Spec == Init /\ [][Next]_vars
 
 -----------------------------------------------------------------------------
 (* PROPERTY clauses (C16; PickleRoundTrip also C14)                        *)
-TypeOK == /\ pc \in {"grow", "built", "failed", "cleared", "pickled", "copied", "solved"}
+TypeOK == /\ pc \in {"grow", "twin", "built", "failed", "cleared", "pickled", "copied", "solved"}
           /\ Level(tree) <= MaxLevel /\ ncalls \in 0..2
 
 \* a call that must answer answers the pointwise combination of its operands' values; a call that must
@@ -328,7 +387,7 @@ SolverAcceptsComposite == last.what = "solve" => (last.ok <=> AllLeaves3D(tree))
 \* which trees the binding hands to the real solver (leaves concretised as a vector potential, a scalar
 \* ramp and numbers): three-dimensional leaves, a field somewhere, and operators that keep it finite
 OkOp(n) == n.op \in {"add", "sub", "mul"} \/ (n.op = "div" /\ IsNum(n.r))
-SolverDomain(tr) == /\ AllLeaves3D(tr) /\ "P3" \in Kinds(tr)
+SolverDomain(tr) == /\ AllLeaves3D(tr) /\ "P3" \in Kinds(tr) /\ ~HasTwin(tr)
                     /\ \/ IsLeaf(tr)
                        \/ /\ OkOp(tr)
                           /\ \A c \in {tr.l, tr.r} : IsLeaf(c) \/ (Level(c) = 1 /\ OkOp(c))
@@ -337,7 +396,8 @@ SolverDomain(tr) == /\ AllLeaves3D(tr) /\ "P3" \in Kinds(tr)
 TimeSeq == <<0, 1 * Q, 3 * Q>>
 Emit == (pc \in {"built", "failed"} /\ last.what = "none") =>
           PrintT(ToJson([tree |-> tree, td |-> TimeDep(tree), level |-> Level(tree), h |-> H(tree),
-                         solver |-> SolverDomain(tree),
+                         solver |-> SolverDomain(tree), twin |-> HasTwin(tree),
+                         eqs |-> IF HasTwin(tree) THEN {} ELSE SameFlat(tree),
                          expect |-> [f \in Forms |-> Expect(tree, f)],
                          vals |-> [f \in Forms |-> [n \in 1..3 |-> [a \in Args |-> EvalAt(tree, a, TimeSeq[n])]]]]))
 =============================================================================
